@@ -135,6 +135,8 @@ def _shape_axis(fnode, e, data, depth=0):
             if isinstance(val, ast.Attribute) and val.attr == "shape" and \
                     norm(val.value) == data and k in (0, 1):
                 return k
+            if isinstance(val, (ast.Tuple, ast.List)) and k < len(val.elts):
+                return _shape_axis(fnode, val.elts[k], data, depth + 1)
     return None
 
 
